@@ -408,22 +408,32 @@ var c05cells = []c05cell{
 		func(x *c05ctx) []hlref.Field { return []hlref.Field{fld(hlref.FNewsPath, p1("Bun"))} },
 		func(x *c05ctx) bool { return !newsChanged(x, "Bun") }),
 	diskCell("news-delete:category-depth3", []int{hlref.PrivNewsDeleteCat}, hlref.TranDelNewsItem,
-		func(x *c05ctx) []hlref.Field { return []hlref.Field{fld(hlref.FNewsPath, p1("Bun", "Deep", "DeepCat"))} },
+		func(x *c05ctx) []hlref.Field {
+			return []hlref.Field{fld(hlref.FNewsPath, p1("Bun", "Deep", "DeepCat"))}
+		},
 		func(x *c05ctx) bool { return !newsChanged(x, "DeepCat") }),
 	diskCell("news-delete:bundle-depth3", []int{hlref.PrivNewsDeleteFldr}, hlref.TranDelNewsItem,
-		func(x *c05ctx) []hlref.Field { return []hlref.Field{fld(hlref.FNewsPath, p1("Bun", "Deep", "DeepBun"))} },
+		func(x *c05ctx) []hlref.Field {
+			return []hlref.Field{fld(hlref.FNewsPath, p1("Bun", "Deep", "DeepBun"))}
+		},
 		func(x *c05ctx) bool { return !newsChanged(x, "DeepBun") }),
 	diskCell("news-delete:category-depth4", []int{hlref.PrivNewsDeleteCat}, hlref.TranDelNewsItem,
-		func(x *c05ctx) []hlref.Field { return []hlref.Field{fld(hlref.FNewsPath, p1("Bun", "Deep", "DeepBun", "Cat4"))} },
+		func(x *c05ctx) []hlref.Field {
+			return []hlref.Field{fld(hlref.FNewsPath, p1("Bun", "Deep", "DeepBun", "Cat4"))}
+		},
 		func(x *c05ctx) bool { return !newsChanged(x, "Cat4") }),
 	diskCell("news-delete:bundle-depth2", []int{hlref.PrivNewsDeleteFldr}, hlref.TranDelNewsItem,
 		func(x *c05ctx) []hlref.Field { return []hlref.Field{fld(hlref.FNewsPath, p1("Bun", "Deep"))} },
 		func(x *c05ctx) bool { return !newsChanged(x, "Deep") }),
 	diskCell("news-new-category:depth3", []int{hlref.PrivNewsCreateCat}, hlref.TranNewNewsCat,
-		func(x *c05ctx) []hlref.Field { return []hlref.Field{sfld(hlref.FNewsCatName, "FreshDeepCat"), fld(hlref.FNewsPath, p1("Bun", "Deep"))} },
+		func(x *c05ctx) []hlref.Field {
+			return []hlref.Field{sfld(hlref.FNewsCatName, "FreshDeepCat"), fld(hlref.FNewsPath, p1("Bun", "Deep"))}
+		},
 		func(x *c05ctx) bool { return newsChanged(x, "FreshDeepCat") }),
 	diskCell("news-new-bundle:depth3", []int{hlref.PrivNewsCreateFldr}, hlref.TranNewNewsFldr,
-		func(x *c05ctx) []hlref.Field { return []hlref.Field{sfld(hlref.FFileName, "FreshDeepBundle"), fld(hlref.FNewsPath, p1("Bun", "Deep"))} },
+		func(x *c05ctx) []hlref.Field {
+			return []hlref.Field{sfld(hlref.FFileName, "FreshDeepBundle"), fld(hlref.FNewsPath, p1("Bun", "Deep"))}
+		},
 		func(x *c05ctx) bool { return newsChanged(x, "FreshDeepBundle") }),
 	diskCell("news-post:depth3", []int{hlref.PrivNewsPostArt}, hlref.TranPostNewsArt,
 		func(x *c05ctx) []hlref.Field {
